@@ -35,6 +35,7 @@ ASSUMPTIONS = [
     "a call that also fails on a fresh dataset is skipped (its arguments are outside the loader's domain), the reused dataset must then fail too or succeed with the fresh result -- only 'reused fails, fresh succeeds' and value differences are violations",
     "after an interrupted call only the groups are judged (unchanged); metadata is judged again after the next successful call",
     "predicates raise RuntimeError at a chosen evaluation; interrupts are raised from the loader's own open() calls",
+    "in 15% of the histories the caller keeps one predicate object per variable and changes what it accepts between calls; the reference dataset gets a new object with the current behaviour",
 ]
 REAL_STUB = {
     "real": ["osyris.RamsesDataset / Loader / readers with their per-dataset lifetime state", "config.additional_variables"],
@@ -166,13 +167,22 @@ def generate(rng, tier):
         calls = [{"kind": "cpu_list", "cpu_list": [rng.randrange(1, p["ncpu"] + 1)]}, {"kind": "full"}] + calls[: max(0, len(calls) - 2)]
         if rng.random() < 0.6:
             p["ghost_p"] = 0.0  # no ghost copies: a file then holds only the levels its own rank has
+    shared_preds = rng.random() < 0.15
+    if shared_preds:
+        # the caller keeps one predicate object per variable and changes what it accepts between calls
+        for i in range(len(calls)):
+            if rng.random() < 0.5 and calls[i]["kind"] != "cpu_list":
+                calls[i] = {"kind": "pred_level", "level": gen_level_pred(rng, p["levelmin"], p["levelmax"])}
     faulty = rng.random() < 0.4
     if faulty:
         for c in calls[:-1]:
             if rng.random() < 0.45:
                 c["fault"] = {"what": rng.choice(["KeyboardInterrupt", "KeyboardInterrupt", "EIO", "predicate"]),
                               "where": rng.choice(["frac", "frac", "after_first_cpu", "last"]), "frac": rng.random()}
-    return {"world": p, "calls": calls, "batch": "faults" if faulty else "fault-free"}
+    case = {"world": p, "calls": calls, "batch": "faults" if faulty else "fault-free"}
+    if shared_preds:
+        case["shared_preds"] = True
+    return case
 
 
 def describe(case):
@@ -196,15 +206,25 @@ class Raiser:
         return self.f(x)
 
 
-def build_kwargs(call, world, counter, raise_at):
+def build_kwargs(call, world, counter, raise_at, shared=None):
+    """shared: predicate objects kept over the history (one per variable); the caller changes what they accept between calls
+    (a closure over a loop variable, a callable object whose threshold is assigned)."""
     kw = {}
     mesh = {}
+
+    def pred(var, f):
+        if shared is None:
+            return Raiser(f, counter, raise_at)
+        obj = shared.setdefault(var, Raiser(None, None, None))
+        obj.f, obj.counter, obj.at = f, counter, raise_at
+        return obj
+
     for s in call.get("intervals", []):
-        mesh[s["var"]] = Raiser(interval_func(s, world), counter, raise_at)
+        mesh[s["var"]] = pred(s["var"], interval_func(s, world))
     for s in call.get("values", []):
-        mesh[s["var"]] = Raiser(value_func(s, world), counter, raise_at)
+        mesh[s["var"]] = pred(s["var"], value_func(s, world))
     if "level" in call:
-        mesh["level"] = Raiser(level_func(call["level"]), counter, raise_at)
+        mesh["level"] = pred("level", level_func(call["level"]))
     k = call["kind"]
     if k == "groups":
         kw["select"] = list(call["groups"])
@@ -290,6 +310,9 @@ def execute(case, stats):
             ds = disk.dataset()
         except Exception as e:
             raise HarnessError(f"cannot construct dataset: {e!r}")
+        shared_preds = {} if case.get("shared_preds") else None
+        if shared_preds is not None:
+            stats.inc("probe.history_with_predicate_objects_reused_and_changed_between_calls")
         for step, call in enumerate(case["calls"]):
             if viol:
                 break
@@ -327,7 +350,7 @@ def execute(case, stats):
                     fired_kind = fault["what"]
             cnt = [0]
             try:
-                disk.load(ds=ds, seam=seam, **build_kwargs(call, w, cnt, raise_at))
+                disk.load(ds=ds, seam=seam, **build_kwargs(call, w, cnt, raise_at, shared=shared_preds))
                 err = None
             except KeyboardInterrupt:
                 err = "KeyboardInterrupt"
@@ -424,6 +447,8 @@ def measure(case):
 
 def reductions(case, viol):
     yield from list_reductions(case, "calls")
+    if case.get("shared_preds"):
+        yield {k: v for k, v in case.items() if k != "shared_preds"}
     for i, c in enumerate(case["calls"]):
         if "fault" in c:
             d = dict(c)
